@@ -41,6 +41,9 @@ def quiet(fn):
         return fn()
 
 
+_VERSION = [b"3\n"]
+
+
 def make_zip(path, present, deep, junk, trailer):
     buf = io.BytesIO()
     with zipfile.ZipFile(buf, "w") as z:
@@ -48,7 +51,7 @@ def make_zip(path, present, deep, junk, trailer):
         z.writestr("archive/readme.txt", b"neutral member")
         for m in MARKERS:
             if m in present:
-                content = pickle.dumps([1, 2], 2) if m.endswith(".pkl") else (b"3\n" if m == "version" else b"{}")
+                content = pickle.dumps([1, 2], 2) if m.endswith(".pkl") else (_VERSION[0] if m == "version" else b"{}")
                 z.writestr(prefix + m, content)
     data = buf.getvalue()
     if junk:
@@ -335,12 +338,40 @@ def _real(item):
 REAL = ("torch-zip", "torch-legacy", "torch-legacy-p1", "torchscript", "torch-zip-state", "legacy-tar", "mar", "plain-zip", "unidentifiable", "plain-pickle")
 
 
+def _version_values(item):
+    """The content of the `version` record (any value >= 2, one or several digits, with or without newline) does not
+    change the identification of an archive that has data.pkl + constants.pkl + version."""
+    import fickling.polyglot as pg
+
+    (wd,) = item
+    out = e1.Out()
+    d = os.path.join(wd, f"ver-{os.getpid()}")
+    os.makedirs(d, exist_ok=True)
+    path = os.path.join(d, "v.bin")
+    res = {}
+    for v in (b"3\n", b"2", b"9\n", b"10\n", b"11", b"100\n", b"25"):
+        _VERSION[0] = v
+        try:
+            for deep in (False, True):
+                make_zip(path, frozenset(("data.pkl", "constants.pkl", "version")), deep, False, "none")
+                res[(v, deep)] = list(quiet(lambda: pg.identify_pytorch_file_format(path)))
+                out.stats.inc("identifications")
+        finally:
+            _VERSION[0] = b"3\n"
+    for (v, deep), r in res.items():
+        if r != res[(b"3\n", deep)]:
+            out.violate(PROP, "C17|version-value", f"archive with version record {v!r} (deep={deep}) identified as {r}, with b'3\\n' as {res[(b'3' + bytes([10]), deep)]}",
+                        {"engine": "E3", "version": v.decode(), "deep": deep}, 1)
+    return out
+
+
 def check(tier):
     rep = Report(PROP, tier, level="fault_enumeration")
     subsets = [frozenset(c) for r in range(6) for c in itertools.combinations(MARKERS, r)]
     with e3.Scratch("c17") as wd:
         syn = [(s, deep, junk, tr, wd) for s, deep, junk, tr in itertools.product(subsets, (False, True), (False, True), ("none", "pickle", "tar"))]
         e3.pmap(_synthetic, syn, rep, chunksize=8)
+        e3.pmap(_version_values, [(wd,)], rep, procs=1)
         e3.pmap(_real, [(wd,)], rep, procs=1)
         pairs = list(itertools.product(REAL, repeat=2))
         if tier == "quick":
